@@ -1,10 +1,12 @@
 import NLV.Driver.PubSub
 import NLV.Driver.Lines
 import NLV.Driver.Registrars
+import NLV.Driver.Aio
 
 def main (args : List String) : IO UInt32 := do
   match args with
   | ["pubsub"] => NLV.Driver.PubSub.main; return 0
   | ["lines"] => NLV.Driver.Lines.main; return 0
   | ["reg"] => NLV.Driver.Reg.main; return 0
+  | ["aio"] => NLV.Driver.Aio.main; return 0
   | _ => IO.eprintln "usage: nlvmodel <model>"; return 2
